@@ -1,6 +1,7 @@
 use crate::engine::Runner;
 
 pub mod alloc_sm;
+pub mod c01;
 pub mod c02;
 pub mod c03;
 pub mod c04;
@@ -34,6 +35,7 @@ pub type CheckFn = fn(&mut Runner);
 
 pub fn registry() -> Vec<(&'static str, CheckFn)> {
     vec![
+        ("C01", c01::run as CheckFn),
         ("C02", c02::run as CheckFn),
         ("C03", c03::run as CheckFn),
         ("C04", c04::run as CheckFn),
